@@ -13,6 +13,10 @@ Tie (C)    : the extracted model (ocaml/eng_c04.ml) and the real library (harnes
              working tree) run the same modify-mode histories -- about 145 (parent label, child label) sibling groups on
              ~42 position labels, every tree level, ADF and HDF5, compress-on-close off / on / always; every w / d / v /
              o line is compared.  Single children (CGNS_DELETE_CHILD arms) are exercised on the implementation only.
+Attributes : every entity whose writer re-creates it in a re-used slot (single children, units, multi-sibling positions; 118
+             targets) is written, given every attribute the API accepts, overwritten, and compared -- session and fresh open --
+             with the same entity created for the first time in a second file (harness `attach` / `full`); statically,
+             C04_overwrite_reinitialises_every_field over Gen_C04.reinit_rows.
 Oracles    : independent of the model, evaluated on the implementation's output only:
              O1 session vs fresh open  -- every view taken before a cg_close equals the view after cg_open (as a map
                 name -> payload; as a list unless the history contains the by-design case below);
@@ -29,6 +33,10 @@ Findings   : what the tree does by design or cannot repair cheaply goes through 
                index-after-reopen-sorted:<label>          by design: cgi_read_base orders (particle) zones by name
                failed-write-leaves-phantom                a write colliding with a sibling of another label fails after
                                                           the mirror was extended
+               overwrite-keeps-attribute:<label>:<fields> phase "overwrite vs attributes": an entity overwritten in its re-used
+                                                          slot still shows an attribute of the entity it replaced
+               fresh-view-differs:<label>:<fields>        same phase: a freshly created entity reads differently in the session
+                                                          and after a fresh open
              Whatever Mirror.shadowed / parents_without_block / unsound_kinds / bad_nrows flag on the regenerated tables
              (all empty now: C04_no_shadowed_arm, C04_every_position_has_a_block, C04_no_stale_id_rows) is replayed on the
              library and reported under delete-arm-shadowed:... / delete-no-dispatch-block:...; everything else -- any other
@@ -94,6 +102,11 @@ CAT = {
     "FlowEquationSet_t": [(D, "w", None), (U, "w", None)],
     "GoverningEquations_t": [(D, "w", None), (U, "w", None)],
     "GasModel_t": [(A, "w", None), (D, "w", None), (U, "w", None)],
+    "ViscosityModel_t": [(A, "w", None), (D, "w", None), (U, "w", None)],
+    "TurbulenceModel_t": [(A, "w", None), (D, "w", None), (U, "w", None)],
+    "ParticleEquationSet_t": [(D, "w", None), (U, "w", None)],
+    "ParticleGoverningEquations_t": [(D, "w", None), (U, "w", None)],
+    "ParticleCollisionModel_t": [(A, "w", None), (D, "w", None), (U, "w", None)],
     "Gravity_t": [(D, "w", None), (U, "w", None)],
     "RotatingCoordinates_t": [(D, "w", None), (U, "w", None)],
     "BCProperty_t": [(D, "w", None), (U, "w", None)],
@@ -111,12 +124,20 @@ MK = [
     ("state", None, "CGNSBase_t", [("ReferenceState", "ReferenceState_t")]),
     ("state", None, "Zone_t", [("ReferenceState", "ReferenceState_t")]),
     ("state", None, "ZoneBC_t", [("ReferenceState", "ReferenceState_t")]),
+    ("state", None, "BC_t", [("ReferenceState", "ReferenceState_t")]),
+    ("state", None, "BCDataSet_t", [("ReferenceState", "ReferenceState_t")]),
+    ("state", None, "ParticleZone_t", [("ReferenceState", "ReferenceState_t")]),
     ("converg", None, "CGNSBase_t", [("GlobalConvergenceHistory", "ConvergenceHistory_t")]),
     ("converg", None, "Zone_t", [("ZoneConvergenceHistory", "ConvergenceHistory_t")]),
     ("eqset", None, "CGNSBase_t", [("FlowEquationSet", "FlowEquationSet_t")]),
     ("eqset", None, "Zone_t", [("FlowEquationSet", "FlowEquationSet_t")]),
     ("governing", None, "FlowEquationSet_t", [("GoverningEquations", "GoverningEquations_t")]),
     ("model", "GasModel_t", "FlowEquationSet_t", [("GasModel", "GasModel_t")]),
+    ("model", "ViscosityModel_t", "FlowEquationSet_t", [("ViscosityModel", "ViscosityModel_t")]),
+    ("model", "TurbulenceModel_t", "FlowEquationSet_t", [("TurbulenceModel", "TurbulenceModel_t")]),
+    ("peqset", None, "ParticleZone_t", [("ParticleEquationSet", "ParticleEquationSet_t")]),
+    ("pgoverning", None, "ParticleEquationSet_t", [("ParticleGoverningEquations", "ParticleGoverningEquations_t")]),
+    ("pmodel", "ParticleCollisionModel_t", "ParticleEquationSet_t", [("ParticleCollisionModel", "ParticleCollisionModel_t")]),
     ("gravity", None, "CGNSBase_t", [("Gravity", "Gravity_t")]),
     ("rotating", None, "CGNSBase_t", [("RotatingCoordinates", "RotatingCoordinates_t")]),
     ("rotating", None, "Zone_t", [("RotatingCoordinates", "RotatingCoordinates_t")]),
@@ -841,6 +862,120 @@ def deser(ops):
     return out
 
 
+# ----------------------------------------------------------------------------------------------- overwrite vs attributes
+def op_line(op):
+    if op[0] == "mk":
+        return "mk %s %s%s" % (op[1], op[2], " " + op[3] if op[3] else "")
+    return lines_of_op(op)
+
+
+def attr_targets():
+    """every entity whose writer deletes and re-creates it in a re-used slot: (tag, parent ops, first write, second write,
+    path of the node) -- single children (mk), DimensionalUnits (unitsfull then units) and the multi-sibling kinds that are
+    positions"""
+    out = []
+    for m in MK:
+        r = route_ops(m[2])
+        if r is None:
+            continue
+        ops, path = r
+        if m[0] in ("ziter", "piter") and not any(o[0] == "mk" and o[2] == "biter" for o in ops):
+            ops = [("mk", "/B", "biter", None, [("BaseIterativeData", "BaseIterativeData_t")])] + ops
+        inner = path
+        for name, _ in m[3]:
+            inner = join(inner, name)
+        w = ("mk", path, m[0], m[1], m[3])
+        out.append(("single %s under %s" % (m[3][-1][1], m[2]), m[3][-1][1], ops, [w], [w], inner))
+    for pl in ("CGNSBase_t", "Zone_t", "FlowSolution_t", "UserDefinedData_t"):
+        r = route_ops(pl)
+        if r is None:
+            continue
+        ops, path = r
+        out.append(("units under %s" % pl, "DimensionalUnits_t", ops, [("mk", path, "unitsfull", None, [])], [("mk", path, "units", None, [])],
+                    path + " noattach"))
+    seen = set()
+    for pl in sorted(CAT):
+        if pl == "CGNSTree_t":
+            continue
+        for label, mode, bound in CAT[pl]:
+            if mode != "w" or label not in CAT or (pl, label) in seen:
+                continue
+            r = route_ops(pl)
+            if r is None:
+                continue
+            ops, path = r
+            if not [k for k in kinds_at(path, pl) if k[0] == label]:
+                continue
+            seen.add((pl, label))
+            name = TAG.get(label, "N") + "x"
+            b = bound or 99
+            out.append(("%s under %s" % (label, pl), label, ops, [("w", path, pl, label, name, 11 % b)], [("w", path, pl, label, name, 22 % b)],
+                        join(path, name)))
+    return out
+
+
+def attr_scripts(backend, fpath, ops, first, second, inner):
+    pre = header(backend, fpath, 0) + [op_line(o) for o in ops]
+    a = pre + ["variant 2"] + [op_line(o) for o in second] + ["full " + inner, "reopen r", "full " + inner, "close"]
+    noattach = inner.endswith(" noattach")          # the node at `inner` is the OWNER of the single child (DimensionalUnits)
+    inner = inner.split(" ")[0]
+    a = pre + ["variant 2"] + [op_line(o) for o in second] + ["full " + inner, "reopen r", "full " + inner, "close"]
+    b = pre + ["variant 1"] + [op_line(o) for o in first] + ([] if noattach else ["attach " + inner]) + ["full " + inner, "variant 2"] + \
+        [op_line(o) for o in second] + ["full " + inner, "reopen r", "full " + inner, "close"]
+    return a, b
+
+
+def fdiff(x, y):
+    """the fields in which two `f` lines differ"""
+    xs, ys = x.split(" ")[2:], y.split(" ")[2:]
+    dx = dict(t.split("=", 1) for t in xs if "=" in t)
+    dy = dict(t.split("=", 1) for t in ys if "=" in t)
+    return sorted(k for k in set(dx) | set(dy) if dx.get(k) != dy.get(k))
+
+
+def attr_case(exe, work, backend, target):
+    """-> (failures, attached fields, raw)"""
+    tag, label, ops, first, second, inner = target
+    fa, fb = os.path.join(work, "attrA_%s.cgns" % backend), os.path.join(work, "attrB_%s.cgns" % backend)
+    for f in (fa, fb):
+        if os.path.exists(f):
+            os.unlink(f)
+    sa, sb = attr_scripts(backend, fa, ops, first, second, inner)[0], attr_scripts(backend, fb, ops, first, second, inner)[1]
+    oa, ca = vlib.run_impl(exe, "\n".join(sa) + "\n", timeout=120)
+    ob, cb = vlib.run_impl(exe, "\n".join(sb) + "\n", timeout=120)
+    for f in (fa, fb):
+        if os.path.exists(f):
+            os.unlink(f)
+    fails = []
+    if ca != "ok" or cb != "ok":
+        return [{"class": "crash", "outcome": ca if ca != "ok" else cb, "target": tag}], [], (sa, oa, sb, ob)
+    bad = [l for l, o in zip(sa, oa) if (l.startswith(("w ", "mk ", "open", "close")) and not o.startswith(("w 0", "c 0")))
+           or (l.startswith("reopen") and o != "o 0")]
+    bad += [l for l, o in zip(sb, ob) if (l.startswith(("w ", "mk ", "open", "close")) and not o.startswith(("w 0", "c 0")))
+            or (l.startswith("reopen") and o != "o 0")]
+    if bad:
+        return [{"class": "status", "target": tag, "lines": bad[:3]}], [], (sa, oa, sb, ob)
+    fa_ = [o for o in oa if o.startswith("f ")]
+    fb_ = [o for o in ob if o.startswith("f ")]
+    att = [o for o in ob if o.startswith("a")][0].split()[1:] if any(o.startswith("a") for o in ob) else ["(first write differs)"]
+    if len(fa_) != 2 or len(fb_) != 3:
+        return [{"class": "view-unreadable", "target": tag, "A": fa_, "B": fb_}], att, (sa, oa, sb, ob)
+    a_ses, a_re = fa_
+    b_att, b_ses, b_re = fb_
+    if a_ses != a_re:
+        fails.append({"class": "attr-fresh", "oracle": "fresh creation: session vs fresh open", "target": tag, "fields": fdiff(a_ses, a_re),
+                      "session": a_ses, "reopened": a_re})
+    if b_ses != a_ses:
+        fails.append({"class": "attr-session", "oracle": "ideal: an overwritten entity has exactly what the new call gave it",
+                      "target": tag, "fields": fdiff(b_ses, a_ses), "after_overwrite": b_ses, "fresh": a_ses, "before_overwrite": b_att})
+    if b_re != a_re:
+        fails.append({"class": "attr-file", "oracle": "ideal, after a fresh open", "target": tag, "fields": fdiff(b_re, a_re),
+                      "after_overwrite": b_re, "fresh": a_re})
+    if b_ses != b_re and not fails:
+        fails.append({"class": "attr-o1", "oracle": "O1 session vs fresh open", "target": tag, "fields": fdiff(b_ses, b_re)})
+    return fails, (att if b_att != a_ses else []), (sa, oa, sb, ob)
+
+
 def run(ck):
     big = ck.tier == "thorough"
     vlib.build_impl()
@@ -910,11 +1045,14 @@ def run(ck):
             tables["kinds"][t[1]] = t[2].split(",") if len(t) > 2 else []
         elif t[0] == "bad_nrow":
             tables["bad_nrow"].append((t[1], t[2]))
+        elif t[0] == "bad_rrow":
+            tables.setdefault("bad_rrow", []).append((t[1], t[2]))
         elif t[0] in ("bad_dblock", "bad_wrow"):
             tables[t[0]].append(t[1])
     ck.extra["tables"] = {"verdicts": tables["verdicts"], "shadowed": tables["shadowed"], "positions_without_block": tables["no_block"],
                           "unsound_kinds": tables["unsound"], "sound_sibling_groups": sum(len(v) for v in tables["kinds"].values()),
-                          "writers_not_storing_the_node_id": tables["bad_nrow"], "bad_dblock": tables["bad_dblock"],
+                          "writers_not_storing_the_node_id": tables["bad_nrow"],
+                          "writers_not_reinitialising_a_field": tables.get("bad_rrow", []), "bad_dblock": tables["bad_dblock"],
                           "bad_wrow": tables["bad_wrow"]}
     # the catalogue must stay inside what the theorems cover: every group the harness drives is a sound kind of its parent
     outside = [(pl, k[0]) for pl in CAT for k in CAT[pl] if pl in tables["kinds"] and k[0] not in tables["kinds"][pl]]
@@ -1100,6 +1238,33 @@ def run(ck):
         static_broken.append({"broken_obligation": "the dispatcher does not shift the array of this kind for an unreserved name",
                               "parent": pl, "label": label, "table": "Mirror.unsound_kinds"})
     ck.extra["table_findings_replayed"] = replayed
+    for fn, fields in tables.get("bad_rrow", []):
+        static_broken.append({"broken_obligation": "a writer that can be handed a re-used slot does not set these fields again",
+                              "function": fn, "fields": fields, "table": "Gen_C04.reinit_rows / Mirror.bad_rrows"})
+
+    # ---- overwrite vs attributes: every entity whose writer deletes and re-creates it in a re-used slot is written, given every
+    # attribute the API accepts there, overwritten by the same writer, and must then look -- in the session and after a fresh
+    # open -- exactly like the same entity created for the first time (run in a second file)
+    atts = attr_targets()
+    attr_cov = {}
+    for ai, target in enumerate(atts):
+        for backend in (("adf", "hdf5") if big else (("adf", "hdf5")[ai % 2],)):
+            fails, attached, raw = attr_case(exe, work, backend, target)
+            dist["attr"] = dist.get("attr", 0) + 1
+            ck.case(hashlib.sha1((target[0] + backend).encode()).hexdigest() if attached else None,
+                    sample={"kind": "overwrite vs attributes", "target": target[0], "backend": backend, "attached": attached})
+            ck.cov["traces_validated_against_impl"] += 1
+            attr_cov[target[0]] = sorted(set(attr_cov.get(target[0], [])) | set(attached))
+            for f in fails:
+                rep = {"attr_target": target[0], "backend": backend, "failure": f, "script_fresh": raw[0], "script_overwrite": raw[2],
+                       "history": raw[2]}
+                if f["class"] in ("attr-session", "attr-file"):
+                    finding("overwrite-keeps-attribute:%s:%s" % (target[1], "+".join(f["fields"])), rep)
+                elif f["class"] == "attr-fresh":
+                    finding("fresh-view-differs:%s:%s" % (target[1], "+".join(f["fields"])), rep)
+                else:
+                    hard(dict(rep, **{"class": f["class"], "found_by": "overwrite vs attributes"}))
+    ck.extra["overwrite_vs_attributes"] = {"targets": len(atts), "attached": attr_cov}
 
     def one(ops, backend, compress, tag):
         lines, exp, out, outcome = exec_case(ops, backend, compress, "h")
@@ -1229,6 +1394,13 @@ def replay(ck, path):
     r = json.load(open(path))
     vlib.build_impl()
     exe = vlib.build_harness("c04_mod", ["c04_mod.c"])
+    if "attr_target" in r:
+        t = [t for t in attr_targets() if t[0] == r["attr_target"]]
+        if not t:
+            print("replay: no such target any more:", r["attr_target"]); return 1
+        fails, att, _ = attr_case(exe, ck.work, r["backend"], t[0])
+        print("replay %s: the implementation %s: %s" % (r["attr_target"], "still diverges" if fails else "no longer diverges", json.dumps(fails[:2])[:1200]))
+        return 1 if fails else 0
     if "ops" not in r:
         print("replay names a broken obligation/correspondence, no input to run:", json.dumps(r)[:600]); return 1
     ops = deser(r["ops"])
